@@ -17,10 +17,22 @@ from ._higherorder import (
 from ._impl import Matcher, Mismatch
 
 
+def _sorted_items(mismatches):
+    """The items of a dict of mismatches in key order.
+
+    Keys that cannot be ordered among themselves (say ``'a'`` and ``1``) are
+    ordered by their repr instead of failing with TypeError.
+    """
+    try:
+        return sorted(mismatches.items(), key=lambda item: item[0])
+    except TypeError:
+        return sorted(mismatches.items(), key=lambda item: repr(item[0]))
+
+
 def LabelledMismatches(mismatches, details=None):
     """A collection of mismatches, each labelled."""
     return MismatchesAll(
-        (PrefixedMismatch(k, v) for (k, v) in sorted(mismatches.items())), wrap=False
+        (PrefixedMismatch(k, v) for (k, v) in _sorted_items(mismatches)), wrap=False
     )
 
 
@@ -57,7 +69,7 @@ class DictMismatches(Mismatch):
         lines.extend(
             [
                 f"  {key!r}: {mismatch.describe()},"
-                for (key, mismatch) in sorted(self.mismatches.items())
+                for (key, mismatch) in _sorted_items(self.mismatches)
             ]
         )
         lines.append("}")
